@@ -134,7 +134,10 @@ CLAIMS = {
                 "all 22 countries with a registered default algorithm: BA ME MK PT RS SI TL (C06_iso97), MR TN (C06_rib), BE (C06_be), "
                 "PL EE ES NO CZ SK IS (C06_pl .. C06_is), FI (C06_fi, Luhn), IT SM (C06_it, CIN tables), FR MC (C06_fr, RIB key with "
                 "letter substitution; 10^18, 10^13, 10^2 = 89, 15, 3 mod 97), each under data obligations on the regenerated spec "
-                "table (component positions, character classes, length, registered class). "
+                "table (component positions, character classes, length, registered class). At IBAN level: C06_iban_accept "
+                "(IBAN(text, validate_bban=True) succeeds iff the cleaned text is ISO 13616-valid and the BBAN-level check returns "
+                "true) and C06_iban_level (hence, for a country whose BBAN-level check is 'rule ? true : raise', iff ISO-valid and "
+                "the published rule holds; instantiated for PL and FR). "
                 "Found and fixed: returns False on success (6f07eec), BA registered as BT (6931682).",
         "note": COMMON_NOTE + " Spec/NationalPublished.v is a hand transcription of the published rules (no network), cross-validated against the implementation on all 22 countries; Norway's '00' account rule is transcribed from the code.",
         "technique": "Coq proof (structural theorems; model = published rule for all 22 registered countries) + extracted published-rule spec as oracle + correspondence",
